@@ -13,6 +13,8 @@ import Mwp.Model.Analysis
 import Mwp.Spec.Calculus
 import Mwp.Lemmas.RelDefs
 import Mwp.Spec.Syntax
+import Mwp.Spec.CalculusInf
+import Mwp.Model.Cli
 import Mwp.Spec.BoundText
 open Lean Mwp Mwp.Wire
 
@@ -498,6 +500,86 @@ def checkC05 (j : Json) : R Json := do
       ("n_warnings", jNat warnings.length), ("n_effect_free_statements", jNat (Spec.effectFreeStmts n))]
   pure (ok (Json.mkObj [("full", Json.bool true)]))
 
+
+-- ---------------------------------------------------------------- C08 (loop mode)
+def loopInspectOp (j : Json) : R Json := do
+  let n ← nodeOfJson (← field j "ast")
+  let pick ← match fOpt j "pick" with
+    | some p => pure (some (← natListOf p))
+    | none => pure none
+  match LoopAnalysis.inspectRel n with
+  | .error e => pure (jRaised e)
+  | .ok (rel, index, infty) =>
+    match LoopAnalysis.inspect n pick with
+    | .error e => pure (jRaised e)
+    | .ok vs =>
+      pure (ok (Json.mkObj [("index", jNat index), ("infty", Json.bool infty), ("relation", jRelation rel),
+        ("vars", jList (fun (v : LoopAnalysis.VRes) => Json.mkObj [("name", Json.str v.name),
+          ("flags", Json.arr #[Json.bool v.isM, Json.bool v.isW, Json.bool v.isP]),
+          ("accepted", match v.choices with
+            | some c => if index ≤ 6 then jList (jList jNat) (acceptedOf c index) else Json.null
+            | none => Json.null)]) vs)]))
+
+def classOfColumn (col : List Scalar) : Scalar := col.foldl Spec.docSum .o
+
+/-- C08 predicate on what loop mode reported for ONE loop (analysed on its own). -/
+def checkC08 (j : Json) : R Json := do
+  let n ← nodeOfJson (← field j "ast")
+  let U ← strListOf (← field j "vars")
+  let index ← fNat j "index"
+  match Spec.desugar n with
+  | none => pure (ok (Json.mkObj [("supported", Json.bool false)]))
+  | some cmd =>
+    if cmd.arity != index then return viol "index-differs" [("reported", jNat index), ("binary_operations", jNat cmd.arity)]
+    let cs := Spec.allChoices index
+    let mats := cs.map fun c => (c, (Spec.semI U cmd 0 (Spec.relabel cmd c)).2)
+    for rj in ← fArr j "results" do
+      let name ← fStr rj "name"
+      let fl ← (← fArr rj "flags").mapM boolOf
+      let (isM, isW, isP) := match fl with
+        | [a, b, c] => (a, b, c)
+        | _ => (false, false, false)
+      if (isM && !isW) || (isW && !isP) then
+        return viol "flags-not-nested" [("variable", Json.str name)]
+      let vi := Spec.idxOf U name
+      if isP then
+        let flags := (← fStr rj "valid").toList
+        if flags.length != cs.length then throw "valid string has wrong length"
+        let bound ← match fOpt rj "bound" with
+          | some b => match ← arrOf b with
+            | [x, y, z] => pure (← strListOf x, ← strListOf y, ← strListOf z)
+            | _ => throw "bad bound"
+          | none => return viol "bounded-without-bound" [("variable", Json.str name)]
+        let cls : Scalar := if isM then .m else if isW then .w else .p
+        -- a reported choice whose derivation is failure-free for the variable and its ancestors,
+        -- whose column is the reported bound and whose largest coefficient is the reported class
+        let reported := (mats.zip flags).filter (fun x => x.2 == '1') |>.map (·.1)
+        let good := reported.filter fun (_, m) =>
+          Spec.okFor m vi &&
+          (columnsOf U m).lookup name == some bound &&
+          (let k := classOfColumn (Spec.SMat.column m vi); (if k == .o then Scalar.m else k) == cls)
+        if good.isEmpty then
+          let ownOk := reported.filter fun (_, m) => (Spec.SMat.column m vi).all (· != .i)
+          let depOk := reported.filter fun (_, m) => Spec.okFor m vi
+          let kind :=
+            if reported.isEmpty then "bounded-without-reported-choice"
+            else if ownOk.isEmpty then "bounded-but-column-fails-at-every-reported-choice"
+            else if depOk.isEmpty then "bound-ignores-failing-dependency"
+            else "bound-or-class-matches-no-valid-derivation"
+          return viol kind [("variable", Json.str name),
+            ("example_choice", match reported with | (c, _) :: _ => jList jNat c | [] => Json.null)]
+    pure (ok (Json.mkObj [("supported", Json.bool true)]))
+
+
+-- ---------------------------------------------------------------- C17
+def cliOp (j : Json) : R Json := do
+  let argv ← strListOf (← field j "argv")
+  match Cli.plan argv with
+  | .error e => pure (jRaised e)
+  | .ok p => pure (ok (Json.mkObj [("input", Json.str p.input), ("loop_mode", Json.bool p.loopMode),
+      ("fin", Json.bool p.fin), ("strict", Json.bool p.strict), ("use_cpp", Json.bool p.useCpp),
+      ("save", match p.save with | some s => Json.str s | none => Json.null)]))
+
 end Ops
 
 def dispatch (op : String) (j : Json) : R Json :=
@@ -524,6 +606,9 @@ def dispatch (op : String) (j : Json) : R Json :=
   | "spec.all_loops" => Ops.allLoopsOp j
   | "spec.count_loops" => Ops.countLoopsOp j
   | "check.C05" => Ops.checkC05 j
+  | "model.loop_inspect" => Ops.loopInspectOp j
+  | "check.C08" => Ops.checkC08 j
+  | "model.cli" => Ops.cliOp j
   | "check.C10" => Ops.checkC10 j
   | "check.C10eq" => Ops.checkRelEq j
   | "model.choices" => Ops.choicesModel j
